@@ -47,6 +47,15 @@ def _inside_trimesh_cut(orig):
     return stub
 
 
+# argument preconditions of the abstracted leaves (their bodies are cut, the call sites are not):
+#   cel(kc,p,c,s): cel0 raises RuntimeError("FAIL") for kc == 0 ; ellipk(m) is +inf at m == 1 ; ellipe(m) is nan for m > 1
+DOMAINS = {
+    "cel": lambda kc, p, c, s: kc != 0,
+    "ellipk": lambda m: m < 1,
+    "ellipe": lambda m: m <= 1,
+}
+
+
 def apply_cuts(names):
     for nm in names:
         if nm == "insideTM":
@@ -60,7 +69,7 @@ def apply_cuts(names):
         if getattr(orig, "__name__", "").startswith("cut_"):
             continue
         if kind == "elementwise":
-            stub = elementwise_cut(nm, orig)
+            stub = elementwise_cut(nm, orig, dom=DOMAINS.get(nm))
         else:
             stub = row_kernel_cut(nm, orig, argnames)
         install.patch(modname, attr, stub)
